@@ -10,7 +10,7 @@ use std::panic::{catch_unwind, AssertUnwindSafe};
 use std::process::{Command, Stdio};
 
 #[derive(Clone, Debug)]
-enum Op {
+pub enum Op {
     Flag(u32),
     Esc(bool),
     MinRep(u32),
@@ -48,8 +48,8 @@ fn model(tcs: &[String], s: Settings) -> Result<String, String> {
     build(&d, s)
 }
 
-fn history_case(st: &mut Stats, rng: &mut Rng, tcs: &[String]) {
-    // the list handed to the builder: permuted, with duplicates
+/// A random builder history: the list handed to the builder (permuted, with duplicates) and the calls.
+pub fn gen_history(rng: &mut Rng, tcs: &[String]) -> (Vec<String>, Vec<Op>) {
     let mut list: Vec<String> = tcs.to_vec();
     for _ in 0..rng.below(3) {
         let x = rng.pick(tcs).clone();
@@ -70,51 +70,63 @@ fn history_case(st: &mut Stats, rng: &mut Rng, tcs: &[String]) {
         })
         .collect();
     ops.push(Op::Build);
+    (list, ops)
+}
+
+/// Executes a history on the real builder; returns (op index, accumulated settings, result) per build.
+/// Panics propagate to the caller's catch_unwind.
+pub fn exec_history(list: &[String], ops: &[Op]) -> Vec<(usize, Settings, String, Option<String>)> {
+    let mut acc = Settings::new(0);
+    let mut b = RegExpBuilder::from(list);
+    let mut out = vec![];
+    for (k, op) in ops.iter().enumerate() {
+        match op {
+            Op::Flag(f) => {
+                apply_flag(&mut b, *f);
+                acc.flags |= f;
+            }
+            Op::Esc(sur) => {
+                b.with_escaping_of_non_ascii_chars(*sur);
+                acc.flags |= ESC;
+                acc.flags = if *sur { acc.flags | SURR } else { acc.flags & !SURR };
+            }
+            Op::MinRep(v) => {
+                b.with_minimum_repetitions(*v);
+                acc.min_rep = *v;
+            }
+            Op::MinLen(v) => {
+                b.with_minimum_substring_length(*v);
+                acc.min_len = *v;
+            }
+            Op::Build => out.push((k, acc, b.build(), None)),
+            Op::CloneBuild => out.push((k, acc, b.clone().build(), None)),
+            Op::BuildTwice => {
+                let a = b.build();
+                let c = b.build();
+                out.push((k, acc, c, Some(a)));
+            }
+        }
+    }
+    out
+}
+
+fn history_case(st: &mut Stats, rng: &mut Rng, tcs: &[String]) {
+    let (list, ops) = gen_history(rng, tcs);
     st.evaluations += 1;
     let r = catch_unwind(AssertUnwindSafe(|| {
-        let mut acc = Settings::new(0);
-        let mut b = RegExpBuilder::from(&list);
         let mut problems: Vec<String> = vec![];
-        let mut builds = 0;
-        for (k, op) in ops.iter().enumerate() {
-            match op {
-                Op::Flag(f) => {
-                    apply_flag(&mut b, *f);
-                    acc.flags |= f;
+        let results = exec_history(&list, &ops);
+        let builds = results.len();
+        for (k, acc, got, first_of_two) in results {
+            if let Some(a) = first_of_two {
+                if a != got {
+                    problems.push(format!("op {k}: two consecutive build() calls differ: {a:?} vs {got:?}"));
                 }
-                Op::Esc(sur) => {
-                    b.with_escaping_of_non_ascii_chars(*sur);
-                    acc.flags |= ESC;
-                    acc.flags = if *sur { acc.flags | SURR } else { acc.flags & !SURR };
-                }
-                Op::MinRep(v) => {
-                    b.with_minimum_repetitions(*v);
-                    acc.min_rep = *v;
-                }
-                Op::MinLen(v) => {
-                    b.with_minimum_substring_length(*v);
-                    acc.min_len = *v;
-                }
-                Op::Build | Op::CloneBuild | Op::BuildTwice => {
-                    let got = match op {
-                        Op::CloneBuild => b.clone().build(),
-                        Op::BuildTwice => {
-                            let a = b.build();
-                            let c = b.build();
-                            if a != c {
-                                problems.push(format!("op {k}: two consecutive build() calls differ: {a:?} vs {c:?}"));
-                            }
-                            c
-                        }
-                        _ => b.build(),
-                    };
-                    builds += 1;
-                    match model(tcs, acc) {
-                        Ok(want) if want == got => {}
-                        Ok(want) => problems.push(format!("op {k} ({op:?}): history gives {got:?}, a fresh builder with the accumulated settings {:?} gives {want:?}", acc.names())),
-                        Err(p) => problems.push(format!("model build panicked: {p}")),
-                    }
-                }
+            }
+            match model(tcs, acc) {
+                Ok(want) if want == got => {}
+                Ok(want) => problems.push(format!("op {k} ({:?}): history gives {got:?}, a fresh builder with the accumulated settings {:?} gives {want:?}", ops[k], acc.names())),
+                Err(p) => problems.push(format!("model build panicked: {p}")),
             }
         }
         (problems, builds)
